@@ -85,6 +85,16 @@ CHECKS['C10'] = dict(cat='other', engine='symnp',
          '[|x|2^-53, |x|2^-52]; values within 1e-9 of the width of an interior bin edge (but not on it) are outside the claim; '
          'log-space histograms and random_subset are outside the claim')
 
+CHECKS['C14'] = dict(cat='other', engine='symnp',
+    technique='symbolic execution of the real link machinery on arrays of SMT terms + SMT equivalence; dependency DAGs enumerated by the solver',
+    text='Depth-2 expression trees over + - * / **2 with stored, pixel (0-stride), world (affine), derived and symbolic-constant '
+         'leaves, built with the real ComponentID/ComponentLink operators; user-function links (incl. ravelled results, fully '
+         'broadcast inputs, user link as left operand) and parsed text commands (incl. nested parsed attributes) are evaluated '
+         'on the whole dataset and for a view family and proved equal to the expression applied elementwise. Removal/update_id: '
+         'every dependency DAG of 3 (thorough: 4) derived attributes over 2 stored ones, with and without a shared sub-expression '
+         'object, every victim: survivors = non-dependants in the old order with unchanged values, every removal announced once.',
+    ref='5/C14', note=NOTE_SYM + '; divisors assumed non-zero (sign of zero not modelled); numpy functions inside parsed commands outside the claim')
+
 NOT_YET = {}
 
 NOT_APPLICABLE = {
